@@ -320,7 +320,8 @@ class MultiVector:
         return self.__class__.fromkeysvalues(self.algebra, keys=self.keys(), values=return_values)
 
     def __setitem__(self, indices, values):
-        if isinstance(values, MultiVector):
+        from_mv = isinstance(values, MultiVector)
+        if from_mv:
             if self.keys() != values.keys():
                 raise ValueError('setitem with a multivector is only possible for equivalent MVs.')
             values = values.values()
@@ -328,7 +329,8 @@ class MultiVector:
         if not isinstance(indices, tuple):
             indices = (indices,)
 
-        if isinstance(self.values(), (tuple, list)):
+        # Coefficient by coefficient for a multivector: numpy would align its leading (blade) axis with a trailing axis.
+        if from_mv or isinstance(self.values(), (tuple, list)):
             for self_values, other_value in zip(self.values(), values):
                 self_values[indices] = other_value
         else:
